@@ -53,3 +53,60 @@ def eol_flip_after_unterminated_quote():
     if got.get(2) != A:
         kinds.append("C16/whitespace-reformat-changed-author@unterminated-quote")
     return kinds, [r]
+
+
+SPLIT_MOVE = {
+ "apart": {
+  "old": "++ tok00100_hu v888\ntok00101_hu v463\ntok00102_hu v772\n\ttok00200_aa v255\n\ttok00201_aa v112\n\"q\" tok00202_aa v189\n    tok00300_cc v297\n++ tok00301_cc v171\n-- tok00302_cc v261\n日本語 tok00400_aa v974\n-- tok00401_aa v672\n\ttok00402_aa v663\n🙂 tok00403_aa v301\nlet x = tok00404_aa v719\n    tok00405_aa v508\nlet x = tok00406_aa v116\ntok00407_aa v319\n# tok00408_aa v351\n# tok00409_aa v815\n@@ -1 +1 @@ tok00410_aa v264\n++ tok00411_aa v259\n🙂 tok00412_aa v522\n@@ -1 +1 @@ tok00413_aa v988\n\"q\" tok00500_cc v442\ntok00501_cc v230\n",
+  "new": "++ tok00100_hu v888\ntok00101_hu v463\ntok00102_hu v772\n日本語 tok00400_aa v974\n-- tok00401_aa v672\n\ttok00402_aa v663\n🙂 tok00403_aa v301\nlet x = tok00404_aa v719\n    tok00405_aa v508\nlet x = tok00406_aa v116\n    tok00300_cc v297\n++ tok00301_cc v171\n-- tok00302_cc v261\ntok00407_aa v319\n# tok00408_aa v351\n# tok00409_aa v815\n@@ -1 +1 @@ tok00410_aa v264\n++ tok00411_aa v259\n🙂 tok00412_aa v522\n@@ -1 +1 @@ tok00413_aa v988\n\ttok00200_aa v255\n\ttok00201_aa v112\n\"q\" tok00202_aa v189\n\"q\" tok00500_cc v442\ntok00501_cc v230\n"
+ },
+ "together": {
+  "old": "é tok00100_hu v191\nlet x = tok00101_hu v547\ntok00102_hu v47\n🙂 tok00200_aa v977\n@@ -1 +1 @@ tok00201_aa v665\n    tok00202_aa v753\n    tok00300_cc v519\n    tok00301_cc v878\n日本語 tok00302_cc v642\né tok00400_aa v383\n    tok00401_aa v669\n++ tok00402_aa v189\n# tok00403_aa v33\n\ttok00404_aa v906\n\"q\" tok00405_aa v728\n@@ -1 +1 @@ tok00406_aa v63\n@@ -1 +1 @@ tok00407_aa v857\n\ttok00408_aa v334\n\"q\" tok00409_aa v412\n@@ -1 +1 @@ tok00410_aa v368\ntok00411_aa v237\n\ttok00412_aa v714\n\"q\" tok00413_aa v6\n@@ -1 +1 @@ tok00500_cc v99\n-- tok00501_cc v228\n",
+  "new": "é tok00100_hu v191\nlet x = tok00101_hu v547\ntok00102_hu v47\né tok00400_aa v383\n    tok00401_aa v669\n++ tok00402_aa v189\n# tok00403_aa v33\n\ttok00404_aa v906\n\"q\" tok00405_aa v728\n@@ -1 +1 @@ tok00406_aa v63\n@@ -1 +1 @@ tok00407_aa v857\n\ttok00408_aa v334\n\"q\" tok00409_aa v412\n@@ -1 +1 @@ tok00410_aa v368\ntok00411_aa v237\n\ttok00412_aa v714\n\"q\" tok00413_aa v6\n    tok00300_cc v519\n    tok00301_cc v878\n日本語 tok00302_cc v642\n🙂 tok00200_aa v977\n@@ -1 +1 @@ tok00201_aa v665\n    tok00202_aa v753\n@@ -1 +1 @@ tok00500_cc v99\n-- tok00501_cc v228\n"
+ }
+}
+
+
+SPLIT_MOVE["bounds"] = {
+ "old": "á tok03732_cc v957\r\n日本語 tok03733_cc v694\r\nlet x = tok03734_cc v709\r\n🙂 tok03735_cc v413\r\ntok03736_cc v675 '\\é'\r\n# tok03737_cc v123\r\n日本語 tok03738_cc v669\r\n\"q\" tok03739_cc v25\r\n    tok03740_hu v371 'it\\'s'\r\né tok03741_hu v998\r\ná tok03742_hu v907\r\n@@ -1 +1 @@ tok03743_hu v206\r\n-- tok03744_hu v254\r\nlet x = tok03745_hu v458\r\n-- tok03746_hu v842\r\né tok03747_hu v806\r\n🙂 tok03748_hu v207\r\n🙂 tok03749_hu v391\r\n++ tok03750_hu v987 \"C:\\été\\data\"\r\ná tok03751_hu v360\r\ntok03752_hu v778\r\n-- tok03753_hu v490 '\\é'\r\ntok03754_hu v642\r\n🙂 tok03755_hu v76\r\né tok03756_hu v370 '\\é'\r\n\ttok03757_hu v59\r\ná tok03758_hu v722\r\ná tok03759_hu v554\r\ná tok03760_hu v286 '\\é'\r\nlet x = tok03761_hu v215\r\ná tok03762_bb v870\r\n",
+ "new": "á tok03732_cc v957\r\n日本語 tok03733_cc v694\r\nlet x = tok03734_cc v709\r\nlet x = tok03745_hu v458\r\n-- tok03746_hu v842\r\né tok03747_hu v806\r\n🙂 tok03748_hu v207\r\n🙂 tok03749_hu v391\r\n++ tok03750_hu v987 \"C:\\été\\data\"\r\n    tok03740_hu v371 'it\\'s'\r\né tok03741_hu v998\r\ná tok03742_hu v907\r\n@@ -1 +1 @@ tok03743_hu v206\r\n-- tok03744_hu v254\r\ná tok03751_hu v360\r\ntok03752_hu v778\r\n-- tok03753_hu v490 '\\é'\r\ntok03754_hu v642\r\n🙂 tok03755_hu v76\r\né tok03756_hu v370 '\\é'\r\n\ttok03757_hu v59\r\ná tok03758_hu v722\r\ná tok03759_hu v554\r\ná tok03760_hu v286 '\\é'\r\nlet x = tok03761_hu v215\r\n🙂 tok03735_cc v413\r\ntok03736_cc v675 '\\é'\r\n# tok03737_cc v123\r\n日本語 tok03738_cc v669\r\n\"q\" tok03739_cc v25\r\ná tok03762_bb v870\r\n"
+}
+
+
+def _split_move(shape):
+    d = SPLIT_MOVE[shape]
+    old, new = d["old"], d["new"]
+    prior = []
+    pos = 0
+    for t in old.split("\n")[:-1]:
+        a = {"hu": "human", "aa": A, "cc": C, "bb": "bbbbbbbbbbbbbbb2"}[t.split("_")[1][:2]]
+        n = len(t.encode()) + 1
+        prior.append([pos, pos + n, a, 1])
+        pos += n
+    r = ev(old, new, prior, A)
+    got = dict((k, v) for k, v in r.get("ai_lines", []))
+    bad = []
+    for i, t in enumerate(new.split("\n")[:-1], 1):
+        a = {"hu": "human", "aa": A, "cc": C, "bb": "bbbbbbbbbbbbbbb2"}[t.split("_")[1][:2]]
+        if got.get(i, "human") != a:
+            bad.append((i, t, a, got.get(i, "human")))
+    return bad, r
+
+
+def split_block_moved_apart_and_together():
+    """D61: session A moves the two halves (3 lines of A, 3 lines of C) of one contiguous block, in one edit, below a longer run of
+    untouched lines, swapped. Apart: the untouched line of A right after the landed C half is re-attributed to C. Together: the first
+    line of the landed A half is attributed to C. (The token diff slides the insertion boundary across tokens the block shares with
+    its new neighbour.)  With multi-byte line prefixes (third input) the boundary lands inside a character: a returned range is not
+    on character boundaries."""
+    kinds = []
+    b1, r1 = _split_move("apart")
+    if b1:
+        kinds.append("C16/unchanged-line-changed-author@split-move-apart")
+    b2, r2 = _split_move("together")
+    if b2:
+        kinds.append("C16/moved-block-lost-author@split-move-together")
+    b3, r3 = _split_move("bounds")
+    if r3.get("bounds_problem"):
+        kinds.append("C16/bounds-update@split-move-multibyte")
+    return kinds, [dict(apart=b1, together=b2, bounds=r3.get("bounds_problem"))]
